@@ -85,7 +85,8 @@ META = {
             "but have no abstract step. The search oracle (classes DL/SL/QU in checks/C05.py) restates the Rocq "
             "specifications in Python. No axioms.",
     "technique": "Rocq proof (separation-style ring/chain invariants, refinement to abstract sequences by induction over "
-                 "histories and fault schedules) + extracted-model vs C correspondence under ASan/UBSan",
+                 "histories and fault schedules) + all 32 a_list_* / a_slist_* functions regenerated from the headers as checked heap "
+                 "programs by a translator and proved equal to the model on every run + extracted-model vs C correspondence under ASan/UBSan",
     "category": "proof",
 }
 
@@ -1346,8 +1347,25 @@ def exhaustive_small(kind):
     return hs
 
 
+LIST_FUNCS = ("a_list_ctor a_list_init a_list_dtor a_list_link a_list_loop a_list_add_ a_list_add_node a_list_add_next a_list_add_prev "
+              "a_list_del_ a_list_del_node a_list_del_next a_list_del_prev a_list_set_ a_list_set_node a_list_mov_next a_list_mov_prev "
+              "a_list_rot_next a_list_rot_prev a_list_swap_ a_list_swap_node").split()
+SLIST_FUNCS = ("a_slist_ctor a_slist_init a_slist_dtor a_slist_link a_slist_add a_slist_add_head a_slist_add_tail a_slist_del "
+               "a_slist_del_head a_slist_mov a_slist_rot").split()
+GEN_HEADER = ("(* GENERATED by tools/c2heap.py from the current sources - do not edit. *)\nFrom Coq Require Import NArith List.\n"
+              "From LibaV Require Import C05.DListDefs C05.SListDefs.\nLocal Open Scope N_scope.\n\n")
+
+
 def run(ctx):
     ok = ctx.prove()
+    # second tie (translator): every a_list_* and a_slist_* function of the headers is REGENERATED as a checked heap program (each
+    # field read and write, in the C's order) and proved equal to the hand model for every heap and every address
+    ctx.heap_translate_and_tie(
+        H / "list_unit.c",
+        [(LIST_FUNCS, {"heap": "h", "heap_type": "dheap", "fields": {"next": ["rd_next", "wr_next"], "prev": ["rd_prev", "wr_prev"]}}),
+         (SLIST_FUNCS, {"heap": "w", "heap_type": "sworld", "fields": {"next": ["s_rd", "s_wr"], "tail": ["t_rd", "t_wr"]},
+                        "embedded": ["head"]})],
+        "GenList", GEN_HEADER, H / "TieList.v")
     cbin, mbin = build(ctx)
     quick = ctx.quick
     stats = {"oracle_all": True}
